@@ -163,12 +163,183 @@ def rule_r3(facts, col):
             col.ok("C13.R3", key, body.where(anchors[0]), "all %d state results after the closing flag are Synced" % n)
 
 
+FRESH_VEC = {"std::vec::Vec::new", "std::vec::Vec::with_capacity", "std::default::Default::default", "std::vec::from_elem"}
+VEC_CLEAR = "std::vec::Vec::clear"
+
+
+def _op_local(op):
+    p = op.get("c") or op.get("m")
+    if p is not None and not p["p"]:
+        return p["l"]
+    return None
+
+
+def _fresh_in(body, local):
+    """Forward must-analysis: the set of blocks at whose END `local` certainly holds an empty Vec.  Events, in statement order:
+    assignment from a fresh constructor / a `clear()` call -> fresh; any other assignment, any `&mut local` borrow that does
+    not feed clear() in the same block, any call receiving the local -> not fresh."""
+    n = body.n
+    reach = sorted(body.reachable(0))
+    # per block transfer: None (no event) / True / False = state after the last event
+    xfer = {}
+    for bb in reach:
+        st = None
+        blk = body.blocks[bb]
+        borrows = set()
+        for s_ in blk["stmts"]:
+            if s_["k"] != "assign":
+                continue
+            d, rv = s_["dst"], s_["rv"]
+            if not d["p"] and d["l"] == local:
+                st = False
+            if rv["k"] in ("ref", "rawptr") and rv["p"]["l"] == local:
+                if rv.get("mut"):
+                    borrows.add(d["l"])
+                    st = False
+        t = blk["term"]
+        if t["k"] == "call":
+            q = t["f"].get("q")
+            rq = (t["f"].get("resolved") or {}).get("q")
+            d = t["dst"]
+            args = [_op_local(a) for a in t["args"]]
+            if q == VEC_CLEAR or rq == VEC_CLEAR:
+                if args and args[0] in borrows:
+                    st = True
+            if not d["p"] and d["l"] == local:
+                st = True if (q in FRESH_VEC or rq in FRESH_VEC) else False
+        xfer[bb] = st
+    out = {bb: True for bb in reach}
+    out_entry = False
+    changed = True
+    while changed:
+        changed = False
+        for bb in reach:
+            preds = [p_ for p_ in body.pred[bb] if p_ in out]
+            inn = out_entry if bb == 0 else (all(out[p_] for p_ in preds) if preds else False)
+            o = inn if xfer[bb] is None else xfer[bb]
+            if o != out[bb]:
+                out[bb] = o
+                changed = True
+    return out, xfer
+
+
+def _follow_moves(body, local, bb, depth=0):
+    """local is a temporary defined once in bb by `use` of another local or by a call: return ('call', q) / ('local', l)"""
+    defs = body.defs().get(local, [])
+    if len(defs) == 1 and depth < 6:
+        dbb, si, kind, payload = defs[0]
+        if kind == "rv" and payload["k"] == "use":
+            l2 = _op_local(payload["a"])
+            if l2 is not None:
+                return _follow_moves(body, l2, dbb, depth + 1)
+        if kind != "rv":
+            t = body.term(dbb)
+            return ("call", t["f"].get("q"), (t["f"].get("resolved") or {}).get("q"), local, dbb)
+    return ("local", local, bb)
+
+
+def _check_restarts(facts, col, body, region, owner_q, counter):
+    """judge every `State::Synced((ones, bits))` aggregate built in `region` of `body`"""
+    for bb in sorted(region):
+        for si, s_ in enumerate(body.blocks[bb]["stmts"]):
+            if s_["k"] != "assign" or s_["rv"]["k"] != "agg" or s_["rv"].get("adt") != STATE_ENUM or s_["rv"].get("variant") != "Synced":
+                continue
+            ops = s_["rv"]["ops"]
+            tl = _op_local(ops[0]) if ops else None
+            tup = None
+            for dbb, dsi, kind, payload in body.defs().get(tl, []) if tl is not None else []:
+                if kind == "rv" and payload["k"] == "agg" and payload.get("ak") == "tuple" and len(payload["ops"]) == 2:
+                    tup = (dbb, payload)
+            key = "%s:restart#%d" % (owner_q, counter[0])
+            counter[0] += 1
+            if tup is None:
+                col.silent("C13.R5", key, body.where(bb), "payload of Synced is not a visible tuple")
+                continue
+            dbb, payload = tup
+            ones = peel(body.operand_expr(payload["ops"][0]), through_try=False)
+            bl = _op_local(payload["ops"][1])
+            problems = []
+            if not (ones.k == "const" and ones.v == 0):
+                problems.append("run-of-ones counter restarts at %s, not 0" % show(ones)[:30])
+            if bl is None:
+                problems.append("bit vector operand not a local")
+            else:
+                r = _follow_moves(body, bl, dbb)
+                if r[0] == "call" and (r[1] in FRESH_VEC or r[2] in FRESH_VEC) and len(body.defs().get(r[3], [])) == 1 and \
+                        not _borrowed_mut(body, r[3]):
+                    pass
+                else:
+                    l = r[1] if r[0] == "local" else r[3]
+                    fresh, xfer = _fresh_in(body, l)
+                    preds = [p_ for p_ in body.pred[dbb] if p_ in fresh]
+                    inn = all(fresh[p_] for p_ in preds) if preds else False
+                    st = inn if xfer.get(dbb) is None else xfer[dbb]
+                    if not st:
+                        problems.append("the bit vector carried into the next frame (%s) is neither freshly constructed nor cleared on "
+                                        "every path: bits of the rejected/finished frame become a prefix of the next one, whose CRC "
+                                        "then fails" % (body.locals[l].get("name") or "_%d" % l))
+            if problems:
+                col.bad("C13.R5", key, body.where(bb), "; ".join(problems), {})
+            else:
+                col.ok("C13.R5", key, body.where(bb), "restarts with (0, empty vector)")
+
+
+def rule_r5(facts, col):
+    """after a complete closing flag the deframer restarts with NO collected bits (a fresh or cleared vector, ones = 0);
+    restarts built by a local helper returning State are judged inside the helper"""
+    for body in facts.bodies:
+        if body.self_adt != DEFRAMER or body.name != "update_state":
+            continue
+        anchors = _flag_strip_points(body)
+        if not anchors:
+            col.silent("C13.R5", body.q, body.where(), "flag-strip point not found")
+            continue
+        after = body.reachable(anchors[0])
+        counter = [0]
+        _check_restarts(facts, col, body, after, body.q, counter)
+        seen = set()
+        for bb in sorted(after):
+            t = body.term(bb)
+            if t["k"] != "call":
+                continue
+            d = t["dst"]
+            if d["p"] or STATE_ENUM not in body.locals[d["l"]]["ty"]:
+                continue
+            for q in Body.callee_qs(t):
+                for hb in facts.by_q.get(q, []):
+                    if hb.path in seen or hb.kind == "closure" or hb is body:
+                        continue
+                    seen.add(hb.path)
+                    _check_restarts(facts, col, hb, hb.reachable(0), body.q + "->" + hb.name, counter)
+
+
+def _borrowed_mut(body, local):
+    for bb in body.reachable(0):
+        for s_ in body.blocks[bb]["stmts"]:
+            if s_["k"] == "assign" and s_["rv"]["k"] in ("ref", "rawptr") and s_["rv"]["p"]["l"] == local and s_["rv"].get("mut"):
+                return True
+    return False
+
+
+def _flag_strip_points(body):
+    anchors = []
+    for bb in sorted(body.reachable(0)):
+        t = body.term(bb)
+        if t["k"] == "assert" and t["msg"]["kind"] == "Overflow" and t["msg"].get("op") == "Sub":
+            b = peel(body.operand_expr(t["msg"]["b"]), through_try=False)
+            if b.k == "const" and b.v == 7:
+                anchors.append(bb)
+    return anchors
+
+
 def run(ctx):
     facts = ctx.facts("default")
     ctx.anchor("C13", DEFRAMER in facts.adts, "hdlc_deframer::HdlcDeframer")
     rule_r1(facts, ctx)
     rule_r2(facts, ctx)
     rule_r3(facts, ctx)
+    rule_r5(facts, ctx)
+    ctx.floor("C13.R5", 1, "Synced restarts after the closing flag (3 today, 1 when built by a helper)")
     from . import c15
     c15.rule_scope(facts, ctx, lambda b: b.file == "src/hdlc_deframer.rs", rule_id="C13.R4")
     ctx.floor("C13.R1", 2, "the two push sites (checksum on / off)")
